@@ -167,6 +167,28 @@ func (t *T) StreamDeferred(req *pb.RequestOp_Range, between func()) ([]*pb.Respo
 	return iter.Collect(seq), nil
 }
 
+// StreamRewalk is StreamDeferred on a sequence that is walked three times: completely, then only up
+// to its first message (a consumer that peeks and stops), then completely again. iter.Seq values are
+// re-iterable and this one opens a fresh engine iterator per walk, so on an unchanged table the
+// first and the third walk must describe the same read.
+func (t *T) StreamRewalk(req *pb.RequestOp_Range, between func()) (first, again []*pb.ResponseOp_Range, err error) {
+	v, err := t.SM.Lookup(fsm.IteratorRequest{RangeOp: req})
+	if err != nil {
+		return nil, nil, err
+	}
+	seq, ok := v.(iter.Seq[*pb.ResponseOp_Range])
+	if !ok {
+		return nil, nil, fmt.Errorf("Lookup(iterator) returned %T", v)
+	}
+	if between != nil {
+		between()
+	}
+	first = iter.Collect(seq)
+	seq(func(*pb.ResponseOp_Range) bool { return false })
+	again = iter.Collect(seq)
+	return first, again, nil
+}
+
 func (t *T) Txn(req *pb.TxnRequest) (*pb.TxnResponse, error) {
 	v, err := t.SM.Lookup(req)
 	if err != nil {
